@@ -160,7 +160,7 @@ static void oneCase(vh::SplitMix& rng, bool biprop, long long it) {
     int kind = (int)rng.below(3);
     executor = (int)rng.below(3);
     if (kind == 0) {
-      dispenso::setAllNodesIncomplete(w.g);
+      setAllNodesIncomplete(w.g);
       std::printf("Q graph setAll => ok\n");
       w.hist += "setAll;";
       execute(w, executor, incompleteNodes(w), "full");
@@ -186,7 +186,9 @@ static void oneCase(vh::SplitMix& rng, bool biprop, long long it) {
         std::vector<int> uf(w.nodes.size()); for (size_t i = 0; i < uf.size(); ++i) uf[i] = (int)i;
         std::function<int(int)> find = [&](int x) { return uf[(size_t)x] == x ? x : uf[(size_t)x] = find(uf[(size_t)x]); };
         std::set<int> inSet;
-        for (auto& e : w.biEdges) if (w.nodes[(size_t)e.first] && w.nodes[(size_t)e.second]) { uf[(size_t)find(e.first)] = find(e.second); inSet.insert(e.first); inSet.insert(e.second); }
+        // sets only grow by declarations and shrink by individual node removal: connectivity established
+        // through a node that was later cleared persists
+        for (auto& e : w.biEdges) { uf[(size_t)find(e.first)] = find(e.second); if (w.nodes[(size_t)e.first]) inSet.insert(e.first); if (w.nodes[(size_t)e.second]) inSet.insert(e.second); }
         std::set<int> roots; for (int x : clo) if (inSet.count(x)) roots.insert(find(x));
         for (int i : inSet) if (roots.count(find(i))) clo.insert(i);
       }
@@ -210,7 +212,7 @@ static void oneCase(vh::SplitMix& rng, bool biprop, long long it) {
       for (int i = 0; i < add; ++i) fresh.push_back(addNode(w, s, rng));
       if (!fresh.empty()) addEdges(w, rng, fresh, (int)rng.below(2 * add + 1), biprop);
       dumpState(w);
-      if (rng.coin()) { dispenso::setAllNodesIncomplete(w.g); std::printf("Q graph setAll => ok\n"); w.hist += "setAll;"; execute(w, executor, incompleteNodes(w), "rebuilt-full"); }
+      if (rng.coin()) { setAllNodesIncomplete(w.g); std::printf("Q graph setAll => ok\n"); w.hist += "setAll;"; execute(w, executor, incompleteNodes(w), "rebuilt-full"); }
       else {
         // only the new nodes (and whatever became incomplete) run; completed predecessors stay complete
         dispenso::ForwardPropagator fp; fp(w.g);
